@@ -203,11 +203,17 @@ def kinds(ctx, facts):
     if ins:
         e = flow.expr_of(sb, ins[0][1]["args"][2])
         is_seq = e[0] == "agg" and e[1][1] == "Sequential"
-        g = malsec.guards(sb, r"Option::<T>::is_none$")
-        div = False
-        for sw, ex, ed, call in g:
-            if "insert" in str(call):
-                div = not [x for x in sb.reachable(ed[0]) if sb.term(x)["k"] == "ret"]
+        # whichever way the previous entry is tested (is_none / is_some / a match on the Option): the edge on which
+        # insert returned Some(previous) must not reach a return
+        some_edges = []
+        for sw, ex, ed, call in malsec.guards(sb, r"Option::<T>::is_(none|some)$"):
+            if "HashMap::<K, V, S, A>::insert" in str(call):
+                some_edges.append(ed[0] if call[1].endswith("is_none") else ed[1])
+        from rules.C17 import variant_arms
+        for sw, pl, arms in variant_arms(sb, "std::option::Option", facts):
+            if "HashMap::<K, V, S, A>::insert" in str(flow.expr_of(sb, {"cp": pl}, max_depth=6)) and "Some" in arms and arms.get("None") != arms["Some"]:
+                some_edges.append(arms["Some"])
+        div = bool(some_edges) and not any(sb.term(x)["k"] == "ret" for e_ in some_edges for x in sb.reachable(e_))
         okS = is_seq and div
     ctx.ob("GUARD-kind", "sequential-refuses-reuse", okS, "sequential() registers the step and panics if it was used before" if okS else "sequential() does not refuse a step that was already used", site_of(sb))
 
